@@ -213,10 +213,11 @@ Definition task_rows (I : instance) (t : task) : list lrow :=
   (if enforce_for I t then [deadline_row I t] else []) ++ [placement_row I t].
 
 (* schedule() raises: (a) `placement_variable.Start = ..` on the constant 0 of an incompatible
-   (worker, strategy) pair of a SCHEDULED task (ilp_scheduler.py:248-255, AttributeError);
+   (worker, strategy) pair of a SCHEDULED task — only if the warm-start loop does not skip such
+   pairs (it does since the fix of finding ILP-H1; `warm_start_guarded` is read from the source);
    (b) a RUNNING task without a usable cached placement (ValueError, :181-188, :401-406) *)
 Definition hint_raises (I : instance) (t : task) : bool :=
-  is_scheduled t && existsb (fun p => match pv t p with PConst _ => true | PVar _ => false end) (pairs I t).
+  negb warm_start_guarded && is_scheduled t && existsb (fun p => match pv t p with PConst _ => true | PVar _ => false end) (pairs I t).
 Definition valid_prev (I : instance) (t : task) : bool :=
   match t_prev t with
   | Some (w, k) => existsb (fun p => (slot_w p =? w) && (slot_k p =? k)) (pairs I t)
